@@ -130,7 +130,16 @@ def _self_tbl(n):
 def _raising_membership_tests(fd):
     """(key text, table text, If) for every `if K in T: ... raise` in fd"""
     out = []
-    for i in ast.walk(fd):
+
+    def own(n):
+        """nodes of fd itself, not of the functions nested in it (those are members of
+        the scope in their own right)"""
+        for ch in ast.iter_child_nodes(n):
+            if isinstance(ch, (ast.FunctionDef, ast.AsyncFunctionDef, ast.Lambda)):
+                continue
+            yield ch
+            yield from own(ch)
+    for i in own(fd):
         if isinstance(i, ast.If) and isinstance(i.test, ast.Compare) and len(i.test.ops) == 1 \
                 and isinstance(i.test.ops[0], ast.In) \
                 and any(isinstance(s, ast.Raise) for s in i.body):
@@ -218,6 +227,11 @@ def r_check_before_insert(c):
     ms = find(v, """
 try:
     $pid = $senders[$id]
+except KeyError as $e:
+    raise MissingSendError($$msg) from $e
+""") + find(v, """
+try:
+    return $senders[$id]
 except KeyError as $e:
     raise MissingSendError($$msg) from $e
 """)
@@ -585,9 +599,19 @@ def r_every_receive_is_an_edge(c):
                 and "MissingSendError" in ast.unparse(r.exc)
                 for h in t.handlers for r in ast.walk(h)):
             par = getattr(t, "_parent", None)
-            while par is not None and not isinstance(par, ast.For):
+            while par is not None and not isinstance(par, (ast.For, ast.FunctionDef)):
                 par = getattr(par, "_parent", None)
-            if par is not None and par not in loops:
+            if isinstance(par, ast.FunctionDef) and par is not f0:
+                # the lookup sits in a local helper: the loops that call the helper
+                for call in ast.walk(f0):
+                    if isinstance(call, ast.Call) and isinstance(call.func, ast.Name) \
+                            and call.func.id == par.name:
+                        q = getattr(call, "_parent", None)
+                        while q is not None and not isinstance(q, ast.For):
+                            q = getattr(q, "_parent", None)
+                        if q is not None and q not in loops:
+                            loops.append(q)
+            elif isinstance(par, ast.For) and par not in loops:
                 loops.append(par)
     for loop in loops:
         found += 1
